@@ -131,6 +131,7 @@ pub fn run(pid: &str, tier: &str, seed: u64, corpus: &str) -> bool {
         "C12" => crate::f_params::c12(&mut ctx, tier, &mut r, &js, &reqs, replay_only),
         "C15" => crate::f_block::c15(&mut ctx, tier, &mut r, &js, &reqs, replay_only),
         "C18" => crate::f_bounded::c18(&mut ctx, tier, &mut r, &js, &reqs, replay_only),
+        "C19" => crate::f_cli::c19(&mut ctx, tier, &mut r, &js, &reqs, replay_only),
         "C16" => crate::f_params::c16(&mut ctx, tier, &mut r, &js, &reqs, replay_only),
         "C11" => crate::f_policy::c11(&mut ctx, tier, &mut r, &js, &reqs, replay_only),
         "C14" => crate::f_range::c14(&mut ctx, tier, &mut r, &js, &reqs, replay_only),
